@@ -36,6 +36,28 @@ Proof.
   rewrite (proj1 ex_len_R). apply Rle_trans with (pow2 0); [apply bpow_le; lia | cbn; lra].
 Qed.
 
+Lemma ex_mdfe_sf : B2SF exMdfe = SpecFloat.S754_finite false 5629499534213120 (-49).
+Proof. vm_compute. reflexivity. Qed.
+
+Lemma ex_mdfe_R : B2R exMdfe = 10 /\ fin exMdfe.
+Proof.
+  pose proof ex_mdfe_sf as H. destruct exMdfe as [s|s| |s m e Hb]; try discriminate.
+  cbn in H. inversion H; subst. split; [|reflexivity]. unfold B2R, F2R. cbn. lra.
+Qed.
+
+Lemma ex_total_not_negative : D.lt (p_total exP) D.zero = false.
+Proof. vm_compute. reflexivity. Qed.
+
+(* hypotheses of the two finiteness theorems (length, length - mdfe) *)
+Lemma ex_len_hyps :
+  D.lt (p_total exP) D.zero = false /\
+  fin exLen /\ fin exMdfe /\ 0 <= B2R exLen /\ 0 <= B2R exMdfe.
+Proof.
+  destruct ex_len_R as (RL & FL). destruct ex_mdfe_R as (RM & FM).
+  split; [exact ex_total_not_negative|]. split; [exact FL|]. split; [exact FM|].
+  rewrite RL, RM. lra.
+Qed.
+
 (* the stream completes; its tick distances are three, and satisfy [dists_ok] *)
 Lemma ex_ticks_count :
   dump_out (fun l => [Z.of_nat (length (ticks_of 0 l)); Z.of_nat (length (ticks_of 1 l))])
